@@ -105,4 +105,16 @@ TEXT = {
         design_ref='DESIGN.md §5 C19',
         note="schemars and draft-07 semantics are modelled (subset: type, required, properties, items, $ref, allOf, anyOf, oneOf, enum, additionalProperties:false, minimum); the translator refuses anything else. A schema change breaks extracted_is_expected; the search then looks for a generated registry the new schema rejects.",
     ),
+    'C13': dict(
+        technique='Lean 4 proofs about the modelled where-clause generator (minimality, skip rules, custom bounds, sufficiency for every instantiation satisfying the property\'s condition) + generated generic declarations with instantiations, each compiled on its own, rustc verdict vs model',
+        level="Proof: SIM.C13.bounds_sufficient_le / bounds_sufficient_partial (for every modelled declaration without custom bounds and EVERY instantiation in which the non-skipped parameters and the encoded members' types have type info, every predicate of the generated where clause holds), bounds_minimal (every generated predicate is an obligation of the generated body or a 'static bound), skipped_members_unbound, bounds_skip, bounds_custom. Tie: generated declarations + one instantiation each, compiled as separate crates; oracle: Spec.usableSpec => compiles; correspondence: rustc verdict = Bounds.usable.",
+        design_ref='DESIGN.md §5 C13, §6',
+        note="partial: rustc's trait solver is not modelled (sufficiency is proved against the structural hasInfo model and sampled by compilation); the side condition 'fewer than 1000 parameters' in bounds_sufficient_le is an artefact of the model's encoding of parameters (bounds_sufficient_counterexample shows the encoding limit). Fix commit 52f0a70 (skipped members). KNOWN-FINDING: qualified self reference.",
+    ),
+    'C20': dict(
+        technique='Lean 4 proofs about the typestate automaton read off src/build.rs and the attribute validator of derive/src/attr.rs (every named ill-formed construction is rejected; accepted programs have path/index/type/consistent names) + generated positive and single-mutation negative programs, each compiled on its own',
+        level="Proof: SIM.C20.illformed_rejected (every builder program that lacks a path, has a variant without index, a field without type, a named field among unnamed ones or the converse is rejected), accepted_has_path, accepted_variant_has_index, accepted_field_has_type, named_all_named, unnamed_all_unnamed, variant_fields_ok, attrs_reject_union / _unknown / _duplicates / _bad_capture_docs / attrs_missing_bound, capture_docs_values. Tie: every generated program is its own cargo bin; rustc's verdict must equal the model's (an ill-formed program that compiles is a SPECFAIL with the program as replay).",
+        design_ref='DESIGN.md §5 C20, §6',
+        note="partial: rustc decides; the automaton is a model of the API's signatures tied only by the verdicts. TypeBuilder::<_, PathAssigned>::default() compiles and panics at run time (no ill-formed value results) - outside the negative grammar.",
+    ),
 }
